@@ -8,7 +8,10 @@ package main
 // parenthesised, and with random redundant parentheses.  The three texts must
 // print the same value (Group) and parse to the same AST once the byte
 // positions are stripped from the dump (Oracle); every text is also compared
-// with the model (dump / class,out).
+// with the model (dump / class,out).  The tokens are written in three blank
+// styles: a blank between any two, none next to brackets, and none wherever
+// the tokens stay the same without (-2.5.floor(), !x.k, a*-b), so that a
+// prefix operator also stands directly in front of its operand.
 
 import (
 	"encoding/hex"
@@ -149,15 +152,22 @@ func (c *c06R) toks(n *c06N, min int) []string {
 	return t
 }
 
-// c06Join writes the tokens with single blanks; in compact style the blanks
-// next to brackets, dots and commas are left out (never changes the tokens).
-func c06Join(t []string, compact bool) string {
+// join styles: the same tokens, different blanks
+const (
+	c06Spaced  = iota // a single blank between any two tokens
+	c06Compact        // no blanks next to brackets, dots and commas
+	c06Tight          // no blank wherever the tokens stay the same without it: -2.5.floor(), !x, a*-b
+)
+
+// c06Join writes the tokens in one of the three styles (never changes the tokens).
+func c06Join(t []string, style int) string {
 	var sb strings.Builder
 	for i, s := range t {
 		if i > 0 {
 			p := t[i-1]
 			glue := false
-			if compact {
+			switch style {
+			case c06Compact:
 				switch {
 				case s == ")" || s == "]" || s == "," || s == ".":
 					glue = true
@@ -166,6 +176,8 @@ func c06Join(t []string, compact bool) string {
 				case (s == "(" || s == "[") && (c06Wordish(p) || p == ")" || p == "]"):
 					glue = true
 				}
+			case c06Tight:
+				glue = !c06NeedsBlank(p, s)
 			}
 			if !glue {
 				sb.WriteByte(' ')
@@ -176,6 +188,27 @@ func c06Join(t []string, compact bool) string {
 	return sb.String()
 }
 
+// c06NeedsBlank: would writing token s directly after token p change the token
+// sequence (two words running together, two operator characters forming a
+// longer operator, anything next to a slash)?
+func c06NeedsBlank(p, s string) bool {
+	if p == "" || s == "" {
+		return true
+	}
+	a, b := p[len(p)-1], s[0]
+	if a == '/' || b == '/' || a == '#' || b == '#' {
+		return true
+	}
+	if c06Wordish(p) && (b == '_' || b == '\'' || b == '"' || b == '$' || (b >= '0' && b <= '9') || (b >= 'a' && b <= 'z') || (b >= 'A' && b <= 'Z')) {
+		return true
+	}
+	switch string([]byte{a, b}) {
+	case "++", "+=", "--", "-=", "*=", "==", "=>", "!=", "!~", "<=", ">=", "&&", "||":
+		return true
+	}
+	return false
+}
+
 func c06Wordish(s string) bool {
 	if s == "" {
 		return false
@@ -184,9 +217,9 @@ func c06Wordish(s string) bool {
 	return c == '_' || c == '\'' || c == '"' || c == '$' || (c >= '0' && c <= '9') || (c >= 'a' && c <= 'z') || (c >= 'A' && c <= 'Z')
 }
 
-func c06Text(n *c06N, mode int, r *rand.Rand, compact bool) string {
+func c06Text(n *c06N, mode int, r *rand.Rand, style int) string {
 	c := &c06R{mode: mode, r: r, p: 0.22}
-	return c06Join(c.toks(n, c06LAsg), compact)
+	return c06Join(c.toks(n, c06LAsg), style)
 }
 
 // ---- dumps without positions ---------------------------------------------
@@ -232,6 +265,40 @@ func (s *c06Siblings) oracle(text string) func(Resp) string {
 func c06DumpNT(i Resp) bool { return i["class"] == "ok" && i["dump"] != "" && i["dump"] != "-" }
 
 var c06ParseFields = []string{"class", "dump", "line", "col", "src"}
+
+// c06Chain applies a suffix chain written as text (.name  (arg, arg)  [arg], the
+// arguments being atoms) to a base: ".k[0].floor()" on x is ((x.k)[0]).floor().
+func c06Chain(base *c06N, spec string) *c06N {
+	n := base
+	for i := 0; i < len(spec); {
+		switch spec[i] {
+		case '.':
+			j := i + 1
+			for j < len(spec) && spec[j] != '.' && spec[j] != '(' && spec[j] != '[' {
+				j++
+			}
+			n = &c06N{k: "mem", op: spec[i+1 : j], a: n}
+			i = j
+		case '(':
+			j := i + strings.IndexByte(spec[i:], ')')
+			c := &c06N{k: "call", a: n}
+			if arg := spec[i+1 : j]; arg != "" {
+				for _, a := range strings.Split(arg, ",") {
+					c.args = append(c.args, c06Atom(strings.TrimSpace(a)))
+				}
+			}
+			n = c
+			i = j + 1
+		case '[':
+			j := i + strings.IndexByte(spec[i:], ']')
+			n = &c06N{k: "idx", a: n, b: c06Atom(spec[i+1 : j])}
+			i = j + 1
+		default:
+			panic("c06Chain: " + spec)
+		}
+	}
+	return n
+}
 
 // ---- random well-kinded trees ----------------------------------------------
 
@@ -279,8 +346,42 @@ func (g *c06G) target(ty byte, d int) *c06N {
 	return g.numTarget()
 }
 
+// sufLit is a literal operand carrying a member / index / method suffix chain,
+// with values for which "suffix first" and "prefix operator first" differ
+// (floor and ceil of fractions, length of a string, ...).
+func (g *c06G) sufLit(ty byte) *c06N {
+	r := g.r
+	switch ty {
+	case 'n':
+		switch r.Intn(6) {
+		case 0, 1, 2:
+			return c06Chain(c06Atom(pick(r, []string{"2.5", "0.5", "3.75", "10.25", "7", "0.25"})), pick(r, []string{".floor()", ".ceil()", ".round()", ".ceil().floor()"}))
+		case 3:
+			return c06Chain(c06Atom(pick(r, []string{"'ab'", `"-x"`, "''", "'7.5'"})), pick(r, []string{".length()", ".upper().length()", ".length().floor()"}))
+		case 4:
+			return c06Chain(c06Atom(pick(r, []string{"[5, 6.5]", "[2.5]", "[0.5, [1], 3]"})), pick(r, []string{"[0]", ".length()", "[0].ceil()"}))
+		default:
+			return c06Chain(c06Atom(pick(r, []string{"{k: 4.5}", "{k: 0.5, j: 1}"})), pick(r, []string{".k", "['k']", ".length()", ".k.floor()"}))
+		}
+	case 's':
+		switch r.Intn(3) {
+		case 0:
+			return c06Chain(c06Atom(pick(r, []string{"'ab'", `"xY"`, "'7'"})), pick(r, []string{".upper()", ".lower()", "[0]", ".upper().lower()"}))
+		case 1:
+			return c06Chain(c06Atom("['a', 'b1']"), pick(r, []string{"[0]", "[1]", "[1].upper()"}))
+		default:
+			return c06Chain(c06Atom("{s: 'q'}"), pick(r, []string{".s", "['s']", ".s.upper()"}))
+		}
+	default:
+		return c06Chain(c06Atom(pick(r, []string{"[1, 2.5]", "[]"})), pick(r, []string{".contains(1)", ".contains(2.5)"}))
+	}
+}
+
 func (g *c06G) atom(ty byte) *c06N {
 	r := g.r
+	if chance(r, 0.12) {
+		return g.sufLit(ty)
+	}
 	switch ty {
 	case 'n':
 		switch r.Intn(10) {
@@ -336,6 +437,9 @@ func (g *c06G) gen(d int, ty byte) *c06N {
 	case 'n':
 		switch r.Intn(20) {
 		case 0, 1:
+			if chance(r, 0.35) {
+				return &c06N{k: "un", op: pick(r, []string{"-", "+"}), a: g.sufLit(g.anyTy())}
+			}
 			return &c06N{k: "un", op: pick(r, []string{"-", "+"}), a: g.gen(d, 'x')}
 		case 2, 3, 4, 5, 6:
 			op := pick(r, c06Arith)
@@ -402,6 +506,9 @@ func (g *c06G) gen(d int, ty byte) *c06N {
 	default:
 		switch r.Intn(10) {
 		case 0, 1:
+			if chance(r, 0.35) {
+				return &c06N{k: "un", op: "!", a: g.sufLit(g.anyTy())}
+			}
 			return &c06N{k: "un", op: "!", a: g.gen(d, 'x')}
 		case 2, 3, 4:
 			t := g.anyTy()
@@ -459,11 +566,11 @@ func c06Depth(n *c06N) int {
 // c06EmitTree emits, for one tree, the three renderings as pexpr cases (model
 // comparison + sibling oracle) and as run cases (model comparison + group).
 func c06EmitTree(r *rand.Rand, emit func(Case), id string, n *c06N, ctx int, extra map[string]string) {
-	compact := chance(r, 0.5)
+	style := r.Intn(3)
 	texts := []string{
-		c06Text(n, c06Min, r, compact),
-		c06Text(n, c06Full, r, compact),
-		c06Text(n, c06Redundant, r, compact),
+		c06Text(n, c06Min, r, style),
+		c06Text(n, c06Full, r, style),
+		c06Text(n, c06Redundant, r, style),
 	}
 	names := []string{"minimal", "full", "redundant"}
 	sib := &c06Siblings{}
@@ -548,8 +655,8 @@ func c06EmitSeq(emit func(Case), ops []string, valuations int) {
 	}
 	plain := strings.Join(flat, " ")
 	tree := c06Group(atoms, ops)
-	full := c06Text(tree, c06Full, nil, false)
-	min := c06Text(tree, c06Min, nil, false)
+	full := c06Text(tree, c06Full, nil, c06Spaced)
+	min := c06Text(tree, c06Min, nil, c06Spaced)
 	id := "seq:" + strings.Join(ops, " ")
 	meta := func(t, which string) map[string]string {
 		return map[string]string{"expression": t, "rendering": which, "operators": strings.Join(ops, " "), "documented grouping": full}
@@ -570,6 +677,176 @@ func c06EmitSeq(emit func(Case), ops []string, valuations int) {
 			m["program"] = prog
 			emit(Case{ID: id + "/run/" + val.name + "/" + []string{"plain", "full"}[i], Req: RunReq(prog, nil, nil, false), Fields: []string{"class", "out"}, Meta: m,
 				Group: id + "/" + val.name, GroupFields: []string{"class", "out"}})
+		}
+	}
+}
+
+// ---- prefix operator x operand kind x suffix chain x context ---------------
+
+// one operand kind: bases (atoms, or small trees the renderer parenthesises)
+// with the suffix chains that evaluate on them; assignable = ++/-- may be
+// applied when the chain ends in a member or an index (or is empty)
+type c06Operand struct {
+	kind       string
+	bases      []*c06N
+	chains     []string
+	assignable bool
+}
+
+const c06PASFuncs = "function fr(x) { return x + 0.5 }\nfunction fa() { return [1.5, 'z'] }\n"
+const c06PASPreset = "n1 = 7; n3 = 2.5; s1 = 'ab'; o = {k: 4.5, m: {z: 9.5}, a: [1.5]}; arr = [5, 6.5, 8]; y = 3\n"
+const c06PASShow = "print n1, n3, s1, o, arr, y, r2, $\n"
+const c06PASInput = `{"p": 6.5, "q": "b", "w": [1.5, 2], "h": 2.5}`
+
+func c06Atoms(ts ...string) []*c06N {
+	out := make([]*c06N, len(ts))
+	for i, t := range ts {
+		out[i] = c06Atom(t)
+	}
+	return out
+}
+
+func c06Operands() []c06Operand {
+	sum := &c06N{k: "bin", op: "+", a: c06Atom("n1"), b: c06Atom("0.5")}
+	cat := &c06N{k: "bin", op: "+", a: c06Atom("'a'"), b: c06Atom("s1")}
+	asg := &c06N{k: "asg", op: "=", a: c06Atom("r2"), b: c06Atom("3.75")}
+	neg := &c06N{k: "un", op: "-", a: c06Atom("2.5")}
+	return []c06Operand{
+		{"number literal", c06Atoms("2.5", "0.5", "3.75", "10.25", "7", "0", "0.25", "100"), []string{"", ".floor()", ".ceil()", ".round()", ".ceil().floor()"}, false},
+		{"string literal", c06Atoms("'ab'", `"-x"`, "''", "'7.5'", `"Q"`), []string{"", ".length()", ".upper()", ".lower()", "[0]", ".length().floor()", ".upper().length()", ".split('')", ".split('').length()"}, false},
+		{"array literal", c06Atoms("[5, 6.5]", "[]", "[[2.5], 'ab']"), []string{"", ".length()", "[0]", "[1]", "[0][0]", "[1].length()", ".contains(5)", ".pop()", "[0].ceil()"}, false},
+		{"object literal", c06Atoms("{k: 4.5}", "{k: [1.5], j: 'x'}", "{}"), []string{"", ".k", "['k']", ".length()", ".k.floor()", ".k[0]", ".k[0].ceil()", ".j.upper()"}, false},
+		{"keyword literal", c06Atoms("true", "false", "null"), []string{"", ".length()", ".k", "[0]"}, false},
+		{"regex literal", c06Atoms("/a/"), []string{"", ".length()"}, false},
+		{"number variable", c06Atoms("n3", "n1"), []string{"", ".floor()", ".ceil()", ".round()"}, true},
+		{"string variable", c06Atoms("s1"), []string{"", ".length()", ".upper()", "[1]", ".upper().length()"}, true},
+		{"array variable", c06Atoms("arr"), []string{"", "[1]", "[1].floor()", ".length()", "[0]", ".pop()", ".contains(8)"}, true},
+		{"object variable", c06Atoms("o"), []string{"", ".k", ".k.floor()", ".m.z", ".m.z.ceil()", "['k']", ".m['z']", ".a[0]", ".a[0].floor()", ".a.length()", ".length()"}, true},
+		{"unset variable", c06Atoms("un"), []string{"", ".k", "[0]", ".length()"}, true},
+		{"function", c06Atoms("fr", "fa"), []string{"(2)", "(2).floor()", "(2.25).ceil()", "()[0]", "()[0].floor()", "().length()", "()[1].upper()"}, false},
+		{"builtin", c06Atoms("num"), []string{"('2.5')", "('2.5').floor()", "('3.75').ceil()"}, false},
+		{"record", c06Atoms("$"), []string{"", ".p", ".p.floor()", ".h.ceil()", ".w[0]", ".w[0].floor()", ".q.length()", ".w.length()", "['h']", "['p'].ceil()"}, true},
+		{"parenthesised", []*c06N{sum, cat, asg, neg}, []string{"", ".floor()", ".ceil()", ".length()", "[0]"}, false},
+	}
+}
+
+var c06Prefixes = [][]string{{}, {"-"}, {"+"}, {"!"}, {"-", "-"}, {"!", "!"}, {"-", "!"}, {"!", "-"}, {"+", "-"}, {"-", "+"}, {"++"}, {"--"}, {"-", "++"}, {"!", "--"}}
+
+type c06Ctx struct {
+	name string
+	mk   func(core *c06N) *c06N
+}
+
+func c06Contexts() []c06Ctx {
+	y := func() *c06N { return c06Atom("y") }
+	left := func(op string) c06Ctx {
+		return c06Ctx{"E " + op + " y", func(c *c06N) *c06N { return &c06N{k: "bin", op: op, a: c, b: y()} }}
+	}
+	right := func(op string) c06Ctx {
+		return c06Ctx{"y " + op + " E", func(c *c06N) *c06N { return &c06N{k: "bin", op: op, a: y(), b: c} }}
+	}
+	is := func(ty string) c06Ctx {
+		return c06Ctx{"E is " + ty, func(c *c06N) *c06N { return &c06N{k: "is", op: ty, a: c} }}
+	}
+	return []c06Ctx{
+		{"E", func(c *c06N) *c06N { return c }},
+		left("*"), right("*"), left("-"), right("-"), left("+"), right("+"), left("%"), right("/"),
+		left("<"), right("=="), left("&&"), right("||"), right("~"),
+		is("number"), is("string"), is("bool"),
+		{"r2 = E", func(c *c06N) *c06N { return &c06N{k: "asg", op: "=", a: c06Atom("r2"), b: c} }},
+		{"r2 += E", func(c *c06N) *c06N { return &c06N{k: "asg", op: "+=", a: c06Atom("r2"), b: c} }},
+		{"y - E - y", func(c *c06N) *c06N {
+			return &c06N{k: "bin", op: "-", a: &c06N{k: "bin", op: "-", a: y(), b: c}, b: y()}
+		}},
+		{"f(E)", func(c *c06N) *c06N { return &c06N{k: "call", a: c06Atom("fr"), args: []*c06N{c}} }},
+		{"[E][0]", func(c *c06N) *c06N { return &c06N{k: "idx", a: c06Atom("arr"), b: c} }},
+	}
+}
+
+// c06EmitPAS emits one prefix/operand/suffix/context tree: the minimal text in
+// the three blank styles (so the prefix operator stands both directly in front
+// of its operand and a blank away), the fully parenthesised text and one with
+// redundant parentheses. All five must have one AST (oracle) and one value
+// (group); everything is compared with the model.
+func c06EmitPAS(r *rand.Rand, emit func(Case), id string, tree *c06N, extra map[string]string) {
+	texts := []string{
+		c06Text(tree, c06Min, r, c06Tight),
+		c06Text(tree, c06Min, r, c06Spaced),
+		c06Text(tree, c06Full, r, c06Tight),
+		c06Text(tree, c06Redundant, r, r.Intn(3)),
+		strings.ReplaceAll(c06Text(tree, c06Min, r, c06Compact), " ", "\t"),
+	}
+	names := []string{"minimal, no blanks", "minimal, blanks", "full", "redundant", "minimal, tabs"}
+	sib := &c06Siblings{}
+	seen := map[string]bool{}
+	for i, t := range texts {
+		if seen[t] {
+			continue
+		}
+		seen[t] = true
+		meta := map[string]string{"expression": t, "rendering": names[i], "minimal": texts[0], "full": texts[2]}
+		for k, v := range extra {
+			meta[k] = v
+		}
+		emit(Case{ID: id + "/pexpr/" + names[i], Req: "pexpr " + hxs(t), Fields: c06ParseFields, Meta: meta,
+			Oracle: sib.oracle(t), NonTrivial: c06DumpNT})
+		prog := c06PASFuncs + "{\n" + c06PASPreset + "r = " + t + "\nprint r\n" + c06PASShow + "}\n"
+		files := []File{{Name: "in.json", Data: []byte(c06PASInput)}}
+		pm := metaProg(prog, "expression", t, "rendering", names[i], "minimal", texts[0], "full", texts[2])
+		for k, v := range extra {
+			pm[k] = v
+		}
+		emit(Case{ID: id + "/run/" + names[i], Req: RunReq(prog, nil, files, false), Fields: []string{"class", "out", "line", "col"}, Meta: pm,
+			Group: id, GroupFields: []string{"class", "out"}, NonTrivial: func(i Resp) bool { return i["class"] == "ok" || i["class"] == "runtime" }})
+	}
+}
+
+func c06PrefixAtomSuffix(r *rand.Rand, tier string, emit func(Case)) {
+	ctxs := c06Contexts()
+	for _, od := range c06Operands() {
+		for bi, base := range od.bases {
+			for _, chain := range od.chains {
+				operand := c06Chain(base, chain)
+				for _, pre := range c06Prefixes {
+					incr := len(pre) > 0 && (pre[len(pre)-1] == "++" || pre[len(pre)-1] == "--")
+					if incr && !(od.assignable && operand.k != "call") {
+						// ++ on something that is no location is a syntax error in every rendering: a few suffice
+						if bi > 0 || len(pre) > 1 {
+							continue
+						}
+					}
+					core := operand
+					for i := len(pre) - 1; i >= 0; i-- {
+						k := "un"
+						if pre[i] == "++" || pre[i] == "--" {
+							k = "pre"
+						}
+						core = &c06N{k: k, op: pre[i], a: core}
+					}
+					// every context in the thorough tier; the bare expression and a sample of three otherwise
+					var pickCtx []int
+					if tier == "thorough" {
+						for i := range ctxs {
+							pickCtx = append(pickCtx, i)
+						}
+					} else {
+						pickCtx = []int{0, 1 + r.Intn(len(ctxs)-1), 1 + r.Intn(len(ctxs)-1), 1 + r.Intn(len(ctxs)-1)}
+						if len(pre) == 0 {
+							pickCtx = pickCtx[:2]
+						}
+					}
+					done := map[int]bool{}
+					for _, ci := range pickCtx {
+						if done[ci] {
+							continue
+						}
+						done[ci] = true
+						tree := ctxs[ci].mk(core)
+						id := fmt.Sprintf("pas:%s:%s:%s", strings.Join(pre, " "), c06Text(operand, c06Min, nil, c06Tight), ctxs[ci].name)
+						c06EmitPAS(r, emit, id, tree, map[string]string{"row": od.kind, "col": "prefix " + strings.Join(pre, " "), "context": ctxs[ci].name})
+					}
+				}
+			}
 		}
 	}
 }
@@ -696,8 +973,13 @@ func init() {
 		},
 	})
 	register(Family{
+		Name: "prefix-atom-suffix", Prop: "C06",
+		Rule: "exhaustive: 15 operand kinds (number / string / array / object / keyword / regex literals, number / string / array / object / unset variables, user and builtin function names, $, parenthesised sums, concatenations, assignments and negations) x the suffix chains that apply (method calls floor ceil round length upper lower split contains pop, members, indexes, calls; up to three deep; values whose floor/ceil/length differ under negation) x 14 prefix operator stacks (none, - + !, pairs of them, ++ --, - ++, ! --) x 22 contexts (bare, either side of * - + % / < == && || ~, is number/string/bool, right of = and +=, y - E - y, call argument, index; quick: bare + 3 sampled), each written with no blanks (-2.5.floor()), with blanks, with tabs, fully parenthesised and with redundant parentheses: one AST (oracle), one value (group), all vs model",
+		Gen:  c06PrefixAtomSuffix,
+	})
+	register(Family{
 		Name: "prefix-suffix-mix", Prop: "C06",
-		Rule: "exhaustive: prefix operator x suffix x binary operator x side (`pre x suf op y`, `y op pre x suf`), plain text vs the tree section 3.8 prescribes (prefix operand is a suffix chain; postfix ++/-- applies to the prefix expression, hence a syntax error) fully parenthesised",
+		Rule: "exhaustive: prefix operator x suffix x binary operator x side (`pre x suf op y`, `y op pre x suf`; the prefix operator a blank away from and directly in front of x), plain text vs the tree section 3.8 prescribes (prefix operand is a suffix chain; postfix ++/-- applies to the prefix expression, hence a syntax error) fully parenthesised",
 		Gen: func(r *rand.Rand, tier string, emit func(Case)) {
 			type suf struct {
 				text string
@@ -750,6 +1032,7 @@ func init() {
 								}
 							}
 							plain := p + " x" + s.text
+							glued := p + "x" + s.text // the prefix operator directly in front of its operand
 							if p == "" {
 								plain = "x" + s.text
 							}
@@ -762,19 +1045,26 @@ func init() {
 								if side == 0 {
 									tree = &c06N{k: k, op: b, a: core, b: c06Atom("y")}
 									plain = plain + " " + b + " y"
+									glued = glued + " " + b + " y"
 								} else {
 									tree = &c06N{k: k, op: b, a: c06Atom("y"), b: core}
 									plain = "y " + b + " " + plain
+									glued = "y " + b + " " + glued
 								}
 							}
-							full := c06Text(tree, c06Full, nil, false)
+							full := c06Text(tree, c06Full, nil, c06Spaced)
 							id := "ps:" + plain
 							sib := &c06Siblings{}
 							m := map[string]string{"expression": plain, "documented grouping": full}
 							emit(Case{ID: id + "/pexpr/plain", Req: "pexpr " + hxs(plain), Fields: c06ParseFields, Meta: m, Oracle: sib.oracle(plain), NonTrivial: c06DumpNT})
 							emit(Case{ID: id + "/pexpr/full", Req: "pexpr " + hxs(full), Fields: c06ParseFields, Meta: m, Oracle: sib.oracle(full), NonTrivial: c06DumpNT})
+							texts := []string{plain, full}
+							if p != "" {
+								emit(Case{ID: id + "/pexpr/glued", Req: "pexpr " + hxs(glued), Fields: c06ParseFields, Meta: m, Oracle: sib.oracle(glued), NonTrivial: c06DumpNT})
+								texts = append(texts, glued)
+							}
 							set := setX[s.text]
-							for i, t := range []string{plain, full} {
+							for i, t := range texts {
 								prog := "BEGIN { " + set + "; y = 2; r = " + t + "; print r, y\nprint x }"
 								if set == "" {
 									prog = "function x(v) { return v + 3 }\nBEGIN { y = 2; r = " + t + "; print r, y }"
